@@ -46,9 +46,9 @@ func (y CheckWhen) check(s *Selection, m meta.Meta) (bool, error) {
 				return false, err
 			}
 			ctx := s
-			if w.OfParent() && !meta.IsLeaf(m) {
+			if w.OfParent() && (meta.IsContainer(m) || meta.IsList(m)) {
 				// s is the container or list item itself, the condition is about the node
-				// that holds it. (for a leaf s is that node already)
+				// that holds it. (for a leaf, choice or case s is that node already)
 				ctx = s.parent
 				if ctx != nil && s.InsideList {
 					ctx = ctx.parent
